@@ -65,7 +65,9 @@ def runOp (j : Json) : Except String Json := do
   let (l, r) := validationRun V PL PR L R
   return mkObj [("left", outToJson l), ("right", outToJson r)]
 
-/-- the specification on given outputs of `disparity_checking(A, B)` -/
+/-- the specification on given outputs of `disparity_checking(A, B)`: the loose clauses (`failures`) and, next
+    to them, the half-even clauses (`failing_even`: `round` = round half to even at both rounding sites;
+    `tie`: the two readings can differ at that pixel) -/
 def specOp (j : Json) : Except String Json := do
   let P ← paramsOfJson j
   let A ← datasetOfJson j "disp_a" "mask_a"
@@ -76,6 +78,8 @@ def specOp (j : Json) : Except String Json := do
   let nrow := A.disp.length
   if om.length != nrow || oc.length != nrow || od.length != nrow || B.disp.length != nrow then throw "row counts differ"
   let mut fails : Array Json := #[]
+  let mut failsEven : Array Json := #[]
+  let mut ties := 0
   let mut sit : List (String × Nat) := []
   let mut r := 0
   for ((dL, mL), (dR, (mo, (co, dout)))) in List.zip (List.zip A.disp A.mask) (List.zip B.disp (List.zip om (List.zip oc od))) do
@@ -94,8 +98,17 @@ def specOp (j : Json) : Except String Json := do
       if !f.isEmpty then
         fails := fails.push (mkObj [("row", natToJson r), ("col", natToJson c),
           ("clauses", listToJson Json.str f), ("trigger", Json.str trig)])
+      -- the half-even reading, evaluated as well (never instead)
+      let tie := !border && !Flags.isInvalid flag && isTiePix P dL dR c
+      if tie then ties := ties + 1
+      let fe := failingPixEven P border dL dR c flag o
+      if !fe.isEmpty then
+        failsEven := failsEven.push (mkObj [("row", natToJson r), ("col", natToJson c),
+          ("clauses", listToJson Json.str fe), ("trigger", Json.str (triggerOfEven P border dL dR c flag)),
+          ("loose_trigger", Json.str trig), ("tie", Json.bool tie)])
     r := r + 1
   return mkObj [("ok", Json.bool fails.isEmpty), ("failures", Json.arr fails),
+    ("ok_even", Json.bool failsEven.isEmpty), ("failing_even", Json.arr failsEven), ("tie_pixels", natToJson ties),
     ("situations", mkObj (sit.map fun (k, n) => (k, natToJson n)))]
 
 def handle (op : String) (j : Json) : Except String Json :=
